@@ -31,6 +31,7 @@ type FuncContract struct {
 	Effectful bool
 	Trusted   bool // contract is assumed, body not checked
 	NoInline  bool
+	Unframed  bool // listed modifies plus the default effect on arguments; no frame obligations on the body
 	Origin    string // file
 	IsExtern  bool
 	IsIface   bool
@@ -80,6 +81,7 @@ type Contracts struct {
 	Specs   map[string]*SpecFunc
 	Ghosts  map[string]*GhostDecl
 	Lemmas  []*Lemma
+	Immutable map[string]string
 	Errors  []string
 	curPkg  string
 }
@@ -470,8 +472,8 @@ func (p *parser) primary() *Expr {
 
 // ---------- file parsing ----------
 
-var declKeywords = map[string]bool{"func": true, "extern": true, "interface": true, "loop": true, "spec": true, "ghost": true, "axiom": true, "lemma": true}
-var clauseKeywords = map[string]bool{"requires": true, "ensures": true, "defines": true, "modifies": true, "pure": true, "effectful": true, "trusted": true, "invariant": true, "noinline": true, "params": true}
+var declKeywords = map[string]bool{"immutable": true, "func": true, "extern": true, "interface": true, "loop": true, "spec": true, "ghost": true, "axiom": true, "lemma": true}
+var clauseKeywords = map[string]bool{"requires": true, "ensures": true, "defines": true, "modifies": true, "pure": true, "effectful": true, "trusted": true, "invariant": true, "noinline": true, "params": true, "unframed": true}
 
 // ParseContractText parses the //@ lines of one file.
 func (C *Contracts) ParseContractText(origin, text string) {
@@ -582,6 +584,15 @@ func (C *Contracts) ParseContractText(origin, text string) {
 			}
 			curL = &LoopSpec{Key: strings.TrimSpace(k[:i]), Ordinal: n}
 			C.Loops[fmt.Sprintf("%s#%d", curL.Key, n)] = curL
+		case "immutable":
+			// immutable <Method>...: getters (by method name) whose result does not change during a request
+			curF, curL = nil, nil
+			if C.Immutable == nil {
+				C.Immutable = map[string]string{}
+			}
+			for _, f := range strings.Fields(el.rest) {
+				C.Immutable[f] = fmt.Sprintf("%s:%d", origin, el.no)
+			}
 		case "spec":
 			curF, curL = nil, nil
 			C.parseSpecFunc(el.rest, el.no, errf)
@@ -667,6 +678,10 @@ func (C *Contracts) ParseContractText(origin, text string) {
 		case "noinline":
 			if curF != nil {
 				curF.NoInline = true
+			}
+		case "unframed":
+			if curF != nil {
+				curF.Unframed = true
 			}
 		case "params":
 			if curF != nil {
